@@ -54,7 +54,14 @@ pub fn run_check(id: &str, tier: Tier) -> i32 {
         return machinery(&e.0);
     }
     if let Err(e) = ctx.conformance_pass() {
-        return machinery(&e.0);
+        // the hook and the command disagree on a script.  With nothing else to go on that is a
+        // failure of the machinery; when the check has itself seen the command violate the
+        // property (cases run through the command, confirmed below through the command), the
+        // disagreement is the change under test and the violations stand
+        if !ctx.violations.iter().any(|v| v.case.cli_path.is_some()) {
+            return machinery(&e.0);
+        }
+        ctx.extra.insert("hook_and_command_disagree".into(), json!(e.0));
     }
     for (g, hit) in &ctx.guards {
         if !*hit {
